@@ -260,7 +260,7 @@ def check_c16(tier):
                           % (ex, rel, want, got), {"example": ex, "instance_file": os.path.join(RES, rel), "expected": want, "oracle": got})
 
     # ---- 2. instances
-    n_random = 40 if tier == "quick" else 150
+    n_random = 40 if tier == "quick" else 300
     work = []          # (example, inst, path, full_configs)
     dist = {}
     for ex in exgen.EXAMPLES:
